@@ -204,6 +204,11 @@ def run(ctx):
              'p \u2028 and q', '\ufeffp', 'a' * 5000, 'a' * 5000 + ' and', '"' + 'a' * 5000 + '"', '"' + 'b' * 300 + '" )',
              '\u00e9' * 300 + ' and', 'p and ' + '\u4e2d' * 50, '\ud800', 'p \udcff', 'A G \U0001F600', 'p\x00q', '\x7f',
              'p and q ' * 300 + '$', ('(p or q) and ' * 200) + 'p']
+    # ORDER matters here (one parser object per logic reads them one after the other): texts that differ only in
+    # the whitespace INSIDE a quoted atom, the plain one first (whitespace is part of the atom's name there, and a
+    # raw line break inside quotes is outside the language)
+    deep += ['"a b" and q', '"a\nb" and q', '"a  b" and q', '"a\tb" and q', '"a b"  and\tq', '"a b" and q', 'p and "x  y"', 'p and "x y"',
+             'p and "x\ny"', 'A G ("in  use" --> A F "in use")' , 'A G ("in use" --> A F "in  use")', 'not "a\rb"', 'not "a b"', 'not "a\rb"']
     for text in deep:
         for logic in LOGICS:
             inp = {'logic': logic, 'text': text}
